@@ -1,9 +1,11 @@
 import Driver.C05
+import Driver.C01
 open Lean
 
 def dispatch (prop : String) (j : Json) : Except String Json :=
   match prop with
   | "C05" => Driver.C05.handle j
+  | "C01" => Driver.C01.handle j
   | _ => .error s!"unknown property {prop}"
 
 partial def loop (h : IO.FS.Stream) (out : IO.FS.Stream) : IO Unit := do
